@@ -736,9 +736,10 @@ fn reaction_bound(ex: &mut Executor, r: &ExecResult, v: &ExecSpec) -> Option<Fai
                 "keeps-reading-after-stop-event",
                 format!(
                     "{after} input bytes were read after the stop flag was raised ({}) (bound: one batch of 100 packets = {batch} bytes + 64 KiB read-ahead) [cmd: {}]",
-                    match v.stop_at_step {
-                        Some(s) => format!("stop event injected at step {s}"),
-                        None => "by the program: error cap / fatal / failed output".to_string(),
+                    match (v.stop_at_step, v.io.stop_at_input_byte) {
+                        (Some(s), _) => format!("stop event injected at step {s}"),
+                        (None, Some(b)) => format!("stop event injected when {b} input bytes were read"),
+                        (None, None) => "by the program: error cap / fatal / failed output".to_string(),
                     },
                     v.cmdline()
                 ),
@@ -816,13 +817,19 @@ fn run_early_stop(
         v.step_budget = steps.saturating_mul(50) + 5000;
         match kind {
             StopKind::StopEvent => {
-                // first and last steps are always tried; the rest uniformly
-                let at = match i {
-                    0 => 1,
-                    1 => steps,
-                    _ => 1 + rng.below(steps),
-                };
-                v.stop_at_step = Some(at);
+                // first and last steps are always tried; the rest uniformly - every third of them tied to
+                // the input instead (the stop event when a drawn number of input bytes has been read: this
+                // also reaches a reader that loops over skipped packets between two decision steps)
+                if i >= 2 && i % 3 == 2 && !base.input.is_empty() {
+                    v.io.stop_at_input_byte = Some(1 + rng.below(base.input.len() as u64));
+                } else {
+                    let at = match i {
+                        0 => 1,
+                        1 => steps,
+                        _ => 1 + rng.below(steps),
+                    };
+                    v.stop_at_step = Some(at);
+                }
             }
             StopKind::StdoutFails { errno } => {
                 let at = match i {
@@ -896,8 +903,8 @@ fn run_early_stop(
         }
         if let Some(mut f) = verdict(&r, &v) {
             f.message = format!(
-                "{} [stop point: step {:?} / stdout byte {:?} of reference steps={} stdout={}]",
-                f.message, v.stop_at_step, v.io.stdout_fail_at, steps, out_len
+                "{} [stop point: step {:?} / input byte {:?} / stdout byte {:?} of reference steps={} stdout={}]",
+                f.message, v.stop_at_step, v.io.stop_at_input_byte, v.io.stdout_fail_at, steps, out_len
             );
             out.fail = Some(f);
             return out;
